@@ -30,7 +30,8 @@ def main():
     known = G.known_names(C.python_codec_names(), tool_names + G.EXTRA_CODECS)
     names = G.name_stream(chk.rng, known, 4000 if big else 700)
     sizes = dict(charmap_bytes=3000 if big else 500, charmap_texts=3000 if big else 500, scripts=20000 if big else 3000,
-                 real_loop=1200 if big else 150, unrep=20000 if big else 3000, check_names=1500 if big else 150)
+                 real_loop=1200 if big else 150, unrep=20000 if big else 3000, check_names=1500 if big else 150,
+                 euctw=12000 if big else 1500)
     corpus_names, C.CORPUS_BYTES[:] = C.corpus_inputs()
     names = [n for n in corpus_names if n not in set(names)] + names
     fam = C.build_streams(chk, names, sizes)
@@ -102,8 +103,13 @@ EXPLANATION = (
     '(probed with 416 byte strings per proposal); memory safety of the ctypes calls cannot be exhibited by a model. '
     'FALSE of the code / environment and recorded: KOI8-T not portable (open), EUC-TW four-byte plane-1 form does not round-trip (open, '
     'inherent to glibc\'s EUC-TW), charset=idna crashed get_unrepresentable_characters (fixed in /repo cf40a53). '
-    'OUTSTANDING: a structural Lean model of EUC-TW (euctw_roundtrip_partial / _refuted) is not written; the refutation is shown on the '
-    'real code only.')
+    'EUC-TW: the structure of the encoding (glibc euc-tw.c: units, error kinds, the form the encoder writes) is modelled over abstract CNS '
+    '11643 tables and tied by the charset-euctw stream (tables asked of iconv unit by unit): euctw_roundtrip_partial (every byte string '
+    'made of canonical units round-trips), euctw_roundtrip_refuted (any tables agreeing with the dumped iconv facts: 8EA1A4A1 and 8EA3A1B8 '
+    'do not), euctw_decode_error_position. iconv_wchar_out_of_range: the binding as a general API raises ValueError when iconv hands back '
+    'a wide character above U+10FFFF (glibc: UTF-8 F5 8F 9E 8D -> WCHAR_T); no extra codec can produce one. '
+    'OUTSTANDING: the CNS 11643 tables themselves are not in Lean (EUC-TW totality/agreement with iconv stays test-level); the reverse '
+    'direction decode(encode(s)) = s is not stated.')
 
 if __name__ == '__main__':
     common.main_wrapper(main)
